@@ -214,6 +214,33 @@ def main(prop, tier="quick", seed=0, jobs=None):
     # a counterexample that never reproduced for its (obligation, shape) is a harness problem
     unresolved = nonrepro
 
+    # ---- differential validation of the model library: witness inputs of proved paths are
+    # replayed on the real numpy/scipy; every obligation must hold there too
+    wfiles = []
+    for r in results:
+        module, fn = r["task"].split(".", 1)
+        for c in r.get("witnesses", [])[:2]:
+            wfiles.append(replay_file(prop, module, fn, r["shape"], dict(c, obligation=f"witness{len(wfiles)}")))
+    w_ok, w_mis, w_skip, w_detail = 0, 0, 0, []
+    if wfiles:
+        env = dict(os.environ, SYMX_MODE="concrete")
+        pr = subprocess.run([PY, "-m", "symx.replay", "--batch"] + wfiles, cwd=VERIF, capture_output=True, text=True, timeout=1800, env=env)
+        for line in pr.stdout.splitlines():
+            if line.startswith("WITNESS ok"):
+                w_ok += 1
+            elif line.startswith("WITNESS mismatch"):
+                w_mis += 1
+                w_detail.append(line[:400])
+            elif line.startswith("WITNESS skipped"):
+                w_skip += 1
+                if len(w_detail) < 6:
+                    w_detail.append(line[:300])
+        for f in wfiles:
+            try:
+                os.remove(f)
+            except OSError:
+                pass
+
     required = getattr(hmod, "REQUIRED", [])
     unreached = [oid for oid in required if obl.get(oid, {}).get("checked", 0) == 0]
     total_ob = sum(o["checked"] for oid, o in obl.items() if is_owned(oid))
@@ -245,7 +272,8 @@ def main(prop, tier="quick", seed=0, jobs=None):
         coverage=dict(
             states=max(1, agg["paths"]),
             transitions=max(1, agg["decisions"] if agg.get("decisions") else agg["forks"] + agg["paths"]),
-            traces_validated_against_impl=replays_run,
+            traces_validated_against_impl=w_ok + replays_run,
+            witness_replays=dict(ok=w_ok, mismatch=w_mis, skipped=w_skip, detail=w_detail[:8], what="inputs (solver models) of fully proved paths re-run on the real code with the real numpy/scipy; all obligations must hold there as well"),
             samples=samples or [dict(note="no symbolic obligation instance recorded")],
             explanation=meta.get("explanation", ""),
             functions_encoded=meta.get("functions_encoded", []),
@@ -286,6 +314,10 @@ def main(prop, tier="quick", seed=0, jobs=None):
     for oid, o in sorted(obl.items()):
         if is_owned(oid):
             print(f"   {oid:55s} checked={o['checked']:6d} proved={o['proved']:6d} failed={o['failed']:4d} unknown={o['unknown']}")
+    print(f"   model-library cross-check: {w_ok} witness inputs of proved paths re-run on the real numpy/scipy agree, {w_mis} mismatch, {w_skip} skipped")
+    for d in w_detail[:6]:
+        if "mismatch" in d:
+            print("   WARNING " + d)
     printed = set()
     for k, rec in known_hits:
         if k["text"] not in printed:
